@@ -31,13 +31,13 @@ func TestVerifC16Queue(t *testing.T) {
 	r.Rule("every error value of nesting depth <= D (same grammar as the endpoint part) through the queue's conversion of recipient errors (toSMTPErr) and its retry classification; a subset (depth <= 1) additionally as a one-attempt run of the real queue whose stored metadata is read back; oracle: class(code) = class(enhanced code) in {4,5}, enhanced code set, and class 4 <=> the queue retries the recipient. Non-trivial: all (distinct values)")
 	depth := 3
 	if vx.Thorough() {
-		depth = 4
+		depth = 5
 	}
 	var want *c16qCase
 	if rp := r.Replay(); rp != nil {
 		want = &c16qCase{}
 		json.Unmarshal(rp, want)
-		depth = 4
+		depth = 5
 	} else if r.Replaying() {
 		return
 	}
